@@ -194,7 +194,10 @@ func (in *Interp) evalTmpl(a *act, n *gen.Node) *Value {
 			res := in.execList(a, k.Kids)
 			a.hole--
 			if res.c != ctlNone {
-				refuse("return/break/continue leaving a template hole")
+				if res.c == ctlReturn {
+					refuse("return leaving a template hole")
+				}
+				panic(&holeJump{c: res.c, ret: res.ret})
 			}
 			v := res.last
 			if v == nil {
